@@ -8,7 +8,7 @@ _POOL = {
                      'dispenso/detail/per_thread_info.cpp', 'dispenso/task_set.cpp'],
     'rt_defs': {'VF_HAVE_THREAD_MODEL': 1}, 'models': ['aligned_alloc'],
     'allow_externals': ['_ZN8dispenso6detail27registerFineSchedulerQuantaEv'],
-    'cflags': ['-DDISPENSO_TUNE_STEAL_RING_SHARING=1'],
+    'cflags': ['-DDISPENSO_TUNE_STEAL_RING_SHARING=1', '-DDISPENSO_DISABLE_CASCADE_WAKERANGE'],
     'unwind': 3, 'spin_loops': True, 'timeout': 400,
     'unwindset': {
         '_ZN8dispenso21ConcurrentObjectArenaINS_14MpmcRingBufferINS_12OnceFunctionELm16ELb1EEEmLm64EE7grow_byEm.4': 17,
@@ -25,5 +25,7 @@ def inst(name, src, defs, bounds, tiers=('quick', 'thorough'), **kw):
 
 
 INSTANCES = [
-    inst('cts_p1', 'cancelled.cpp', {'VF_SET': 1, 'VF_POOL_N': 1, 'VF_MQ_CAP': 4}, 'probe'),
+    inst('v0', 'probe_min2.cpp', {'VF_POOL_N': 1, 'VF_MQ_CAP': 4, 'VF_VAR': 0}, 'probe', timeout=3),
+    inst('v1', 'probe_min2.cpp', {'VF_POOL_N': 1, 'VF_MQ_CAP': 4, 'VF_VAR': 1}, 'probe', timeout=3),
+    inst('v2', 'probe_min2.cpp', {'VF_POOL_N': 1, 'VF_MQ_CAP': 4, 'VF_VAR': 2}, 'probe', timeout=3),
 ]
